@@ -345,6 +345,9 @@ def main():
     # an integer parse callback may produce any long: what it produced is what is stored and what the validation sees
     K9 = Schema('K9', [Opt('int', 'a', '', 5, 'pv'), Opt('int', 'l', 'L', [b'1'], 'pv'), Opt('sec', 's', 'M', sub=[Opt('int', 'x', '', 1, 'pv')])])
     confs.append((K9, K9, [], 0, S.alphabet_for(K9) + ['BIG', 'I31', 'U32', 'NEG', 'HUGE']))
+    # 'simple' options (the value lives in the caller's variable) are validated like any other
+    K10 = Schema('K10', [Opt('int', 'n', 'S', None, 'v'), Opt('str', 't', 'S', None, 'v'), Opt('int', 'a', '', 5, 'v'), Opt('int', 'z', '', 3)])
+    confs.append((K10, K10, [], 0))
     # pointer values, scalar and list: the object a parse callback makes is stored, released when replaced, never half-stored
     K8 = Schema('K8', [Opt('ptr', 'q', '', None, 'pf'), Opt('ptr', 'ql', 'L', None, 'pf'), Opt('int', 'z', '', 3, 'v')])
     Nk = 4 if quick else 6
